@@ -306,6 +306,28 @@ impl CharacterData {
     }
 }
 
+/// verification hook H3 (only compiled with `--cfg autosar_data_verif`): public access to the crate-internal
+/// conversion functions, so that they can be called with every `CharacterDataSpec` of the specification
+#[cfg(autosar_data_verif)]
+impl CharacterData {
+    /// `CharacterData::parse`
+    pub fn verif_parse(input: &str, spec: &CharacterDataSpec, version: AutosarVersion) -> Option<Self> {
+        Self::parse(input, spec, version)
+    }
+
+    /// `CharacterData::check_value`
+    pub fn verif_check_value(&self, spec: &CharacterDataSpec, version: AutosarVersion) -> bool {
+        Self::check_value(self, spec, version)
+    }
+
+    /// the text that `serialize_internal` appends
+    pub fn verif_serialize(&self) -> String {
+        let mut out = String::new();
+        self.serialize_internal(&mut out);
+        out
+    }
+}
+
 impl From<String> for CharacterData {
     fn from(value: String) -> Self {
         Self::String(value)
